@@ -276,6 +276,25 @@ def run(ctx):
                 cls_lit = l1[1]
                 ok_cls = pyre.fullmatch(r"\[[^\[\]\\^]+\]\{0,", cls_lit) is not None
                 word = peel_conv(w[1])
+                # a cleaner that answers with a Cow: `if word.contains(ignored) { Owned(filtered) } else { Borrowed(word) }` — the filtered
+                # alternative is the cleaned word; the borrowed one must stand under "no character the filter removes occurs" (checked below)
+                raw_alts = []
+                if strip_refs(word).k == "phi":
+                    falt = None
+                    for a_ in strip_refs(word).a[0]:
+                        a1 = strip_refs(peel_conv(a_))
+                        if a1.k == "agg" and str(a1.a[0]).startswith("adt:std::borrow::Cow::") and len(a1.a[1]) == 1:
+                            a1 = strip_refs(peel_conv(a1.a[1][0]))
+                        if a1.k == "arg":
+                            raw_alts.append(a1)
+                        elif falt is None:
+                            falt = a1
+                        else:
+                            falt = False
+                    if falt not in (None, False) and raw_alts:
+                        word = falt
+                    else:
+                        raw_alts = []
                 # the cleaned word: collect(filter(chars(<search word>), closure)) — the cleaner helper is spliced in
                 chain = []
                 x = word
@@ -345,7 +364,35 @@ def run(ctx):
                                 break
                             if not all(v == pol for v, (d, pol) in zip(vs, loop_filter[2])):
                                 removed.add(c)
-                    if removed is None:
+                    if removed is not None and raw_alts:
+                        # the uncleaned word is used on some path: only where a test over the same characters found none to remove
+                        okraw = False
+                        cb_ = prog.body(cleaner) if cleaner in prog.fns else None
+                        if cb_ is not None and clo:
+                            pe2 = PredEval(prog)
+                            for (bb2, t2) in cb_.calls():
+                                n2 = callee_name(t2)
+                                if (n2.endswith("str>::contains") or n2.endswith("Iterator>::any") or n2.endswith("Iterator::any")) and len(t2["args"]) == 2:
+                                    p2 = strip_refs(cb_.expr_operand(t2["args"][1]))
+                                    ck2 = str(p2.a[0])[8:] if (p2.k == "agg" and str(p2.a[0]).startswith("closure:")) else None
+                                    if ck2 is None:
+                                        continue
+                                    same = True
+                                    for c in dom:
+                                        r2 = pe2.call(ck2, [("env",), ord(c)])
+                                        if not isinstance(r2, bool) or r2 != (c in removed):
+                                            same = False
+                                            break
+                                    # the borrowed alternative must be the one taken when the test found nothing
+                                    if same:
+                                        okraw = True
+                        if not okraw:
+                            r5.violation("clean", "on some path the search word goes into the pattern uncleaned, and no test over exactly the characters the filter "
+                                         "removes guards that path", common.fn_line(prog, cleaner))
+                            removed = False
+                    if removed is False:
+                        pass
+                    elif removed is None:
                         r5.undecidable("clean", "cannot evaluate the cleaning filter as a set", common.fn_line(prog, cleaner))
                     else:
                         miss = sorted(c for c in REGEX_META | {"‌"} if c not in removed)
